@@ -321,13 +321,23 @@ pub fn oracle(ctx: &mut Ctx) {
             if rng.chance(1, 4) {
                 pre.push((*b"tEXt", b"Software\0x".to_vec()));
             }
+            // colour-space metadata on an animation: the pre-pass that handles it runs before the one that
+            // switches every transformation off for animations
+            if prop == "C10" && rng.chance(1, 3) {
+                match rng.below(3) {
+                    0 => pre.push((*b"iCCP", make_iccp(&gen_profile(&mut rng, 0)))),
+                    1 => { pre.push((*b"iCCP", make_iccp(&gen_profile(&mut rng, 1)))); pre.push((*b"sRGB", vec![1])); }
+                    _ => pre.push((*b"sRGB", vec![0])),
+                }
+                st.count("animated_with_colour_space_chunks");
+            }
             encode_apng_with(&mut rng, &img, nf, default_in, parts, &pre)
         } else {
             img.encode_png(&mut rng, &enc)
         };
         let mut opts = gen_opts(&mut rng, Profile::Any, ctx.tier_thorough);
         opts.strip = if animated {
-            match rng.below(6) { 0 => HStrip::Safe, 1 => HStrip::All, 2 => HStrip::Strip(vec![*b"acTL", *b"fcTL", *b"fdAT"]), _ => HStrip::None }
+            match rng.below(7) { 0 | 1 => HStrip::Safe, 2 => HStrip::All, 3 => HStrip::Strip(vec![*b"acTL", *b"fcTL", *b"fdAT"]), _ => HStrip::None }
         } else { gen_strip(&mut rng, &enc) };
         if prop == "C14" || prop == "C08" { opts.scale_16 = false; }
         enc.fixed_filter = None;
